@@ -41,10 +41,10 @@ ROWS = [
 ]
 GN_P = ["A>C", "A>G", "A>T", "C>A", "C>G", "C>T", "G>A", "G>C", "G>T", "T>A", "T>C"]
 GS_P = ["A>G", "A>C", "C>G", "C>A", "A>T", "C>T", "T>G", "T>A", "T>C"]
-PARAMS = {"HKY85": ["kappa"], "GN": GN_P, "GS": GS_P}
+PARAMS = {"HKY85": ["kappa"], "GN": GN_P, "GS": GS_P, "HKY85+gamma": ["kappa"]}
 WEIGHTING = {"HKY85": "tuple", "GN": None}          # GS: no independent rate matrix here (fresh calculator only)
-MAIN = {"HKY85": "kappa", "GN": "A>G", "GS": "A>G"}
-MPROBS_FREE_BY_DEFAULT = {"HKY85": False, "GN": True, "GS": True}
+MAIN = {"HKY85": "kappa", "GN": "A>G", "GS": "A>G", "HKY85+gamma": "kappa"}
+MPROBS_FREE_BY_DEFAULT = {"HKY85": False, "GN": True, "GS": True, "HKY85+gamma": False}
 PI = [{"A": 0.1, "C": 0.2, "G": 0.3, "T": 0.4}, {"A": 0.3, "C": 0.3, "G": 0.15, "T": 0.25}]
 BOUNDS = {"length": (0.0, 10.0)}
 RATE_BOUNDS = (1e-6, 1e6)
@@ -251,6 +251,8 @@ def make_model(name):
         from cogent3.evolve.ns_substitution_model import GeneralStationary
         return GeneralStationary(get_moltype("dna").alphabet, optimise_motif_probs=True, recode_gaps=True,
                                  model_gaps=False, name="GS")
+    if name == "HKY85+gamma":               # two rate classes, discrete gamma (calculator contract only)
+        return get_model("HKY85", ordered_param="rate", distribution="gamma")
     return get_model(name)
 
 
@@ -267,7 +269,8 @@ def make_aln(tips, i):
 
 def build_lf(model, tips, aln=0):
     from cogent3 import make_tree
-    lf = make_model(model).make_likelihood_function(make_tree(TREES[tips]))
+    kw = {"bins": 2} if model == "HKY85+gamma" else {}
+    lf = make_model(model).make_likelihood_function(make_tree(TREES[tips]), **kw)
     lf.set_alignment(make_aln(tips, aln))
     return lf
 
@@ -296,6 +299,8 @@ def resolve_step(step, hist, cur, lo, hi, names):
     """target vector of a calculator step, or None when the step does not apply (nothing to go back to)"""
     n = len(cur)
     k = step[0]
+    if n == 0:                                # nothing is free: every step is the empty vector
+        return cur.copy()
 
     def put(vec, deltas):
         for idx, d in deltas.items():
@@ -663,14 +668,19 @@ def shrink(case, run, label):
     return ops
 
 
+def refused_block(op):
+    return op[0] in ("postponed", "batch") and contains_bad(op)
+
+
 def _fail(cname, case, run, res):
     label, msg = res[0], res[1]
     small = shrink(case, run, label)
-    if len(small) == 2 and contains_bad(small[0]) and small[0][0] in ("postponed", "batch") and not contains_bad(small[1]):
-        # witness pattern: a block that was refused half-way, then ANY operation, and the function no longer follows
-        # (which part of the view shows it first depends on the operation; it is kept in the message)
-        key = f"{cname}/{case['cfg'][0]}/not-following-after-refused-block/{small[0][0]} > any operation"
-        msg = f"[{label} after {kind(small[1])}] {msg}"
+    blocks = [o[0] for o in small[:-1] if refused_block(o)]
+    if blocks and not label.startswith("after-refused-op"):
+        # witness pattern: a block that was refused half-way, later ANY operation, and the function does not follow
+        # any more (which part of the view shows it first depends on the other operations: kept in the message)
+        key = f"{cname}/{case['cfg'][0]}/not-following-after-refused-block/{blocks[0]} > any operation"
+        msg = f"[{label}; shrunk history {' > '.join(kind(o) for o in small)}] {msg}"
     else:
         key = f"{cname}/{case['cfg'][0]}/{label}/{' > '.join(kind(o) for o in small)}"
     return ("fail", key, f"{json.dumps(case)}: {msg} | shrunk history: {json.dumps(small)}")
@@ -1016,7 +1026,8 @@ def gen_history(tier, seed):
         # length 3: core alphabet (quick: first configuration, a seeded third of the second);
         # thorough: full alphabet on the first configuration
         if thorough and ci == 0:
-            for ops in _products(full, 3):
+            # (refused blocks make everything after them fail: they are enumerated up to length 2 only)
+            for ops in _products([o for o in full if not refused_block(o)], 3):
                 yield {"cfg": cfg, "ops": ops}
         elif thorough or ci == 0:
             for ops in _products(core, 3):
@@ -1025,10 +1036,11 @@ def gen_history(tier, seed):
             for ops in _products(core, 3):
                 if rnd.random() < 0.34:
                     yield {"cfg": cfg, "ops": ops}
-        # length 4: core alphabet, thorough, two configurations
+        # length 4: core alphabet, thorough, first configuration (a seeded third on the second)
         if thorough and ci < 2:
             for ops in _products(core, 4):
-                yield {"cfg": cfg, "ops": ops}
+                if ci == 0 or rnd.random() < 0.34:
+                    yield {"cfg": cfg, "ops": ops}
     # beyond the frontier: seeded random histories of random operations
     for j in range(4000 if thorough else 300):
         cfg = CONFIGS[j % 4]
@@ -1055,7 +1067,8 @@ def gen_export(tier, seed):
                     yield {"cfg": cfg, "ops": ops}
         if thorough and ci == 0:
             for ops in _products(core, 4):
-                yield {"cfg": cfg, "ops": ops}
+                if rnd.random() < 0.5:
+                    yield {"cfg": cfg, "ops": ops}
     for j in range(3000 if thorough else 200):
         cfg = CONFIGS[j % 4]
         yield {"cfg": cfg, "ops": [random_op(rnd, *cfg) for _ in range(rnd.choice([3, 4, 5, 6]))]}
@@ -1099,8 +1112,10 @@ def _step_sequences(n):
 def gen_calculator(tier, seed):
     rnd = random.Random(seed + 2)
     thorough = tier == "thorough"
-    for model in ("HKY85", "GN", "GS"):
+    for model in ("HKY85", "GN", "GS", "HKY85+gamma"):
         for si, setup in enumerate(calc_setups(model)):
+            if model == "HKY85+gamma" and si:
+                continue
             for tips in ((4, 3) if thorough else (4,)):
                 for mode in ("T", "C", "CR", "T0"):
                     if mode in ("CR", "T0") and (si or tips == 3):
@@ -1109,12 +1124,13 @@ def gen_calculator(tier, seed):
                     for n in (1, 2):
                         for steps in _step_sequences(n):
                             yield {"cfg": cfg, "setup": setup, "mode": mode, "steps": steps}
-                    if thorough and tips == 4 and mode in ("T", "C") and not (si and model == "GN"):
+                    if thorough and tips == 4 and mode in ("T", "C") and not (si and model == "GN") \
+                            and model != "HKY85+gamma":
                         for steps in _step_sequences(3):
                             yield {"cfg": cfg, "setup": setup, "mode": mode, "steps": steps}
     pool = CALC_STEPS + CALC_STEPS[4:7] * 2
     for j in range(4000 if thorough else 300):
-        model = ("HKY85", "GN", "GS")[j % 3]
+        model = ("HKY85", "GN", "GS", "GS", "GN", "HKY85+gamma")[j % 6]
         n = rnd.choice([3, 4]) if not thorough else rnd.choice([4, 5, 6, 8])
         steps = [rnd.choice(pool) if rnd.random() < 0.7 else random_step(rnd) for _ in range(n)]
         yield {"cfg": [model, rnd.choice([3, 4])], "setup": rnd.choice(calc_setups(model)),
